@@ -132,9 +132,35 @@ def run_checks(d, props, tier="quick"):
         sh(["git", "-C", VERIF, "checkout", "--", "evidence"])
 
 
+def table():
+    """markdown table of seeded/<id>: property, what it needs, confirmation, which checks were run and what they said"""
+    rows = []
+    root = os.path.join(VERIF, "seeded")
+    for name in sorted(os.listdir(root)):
+        d = os.path.join(root, name)
+        if not os.path.exists(os.path.join(d, "meta.json")):
+            continue
+        m = json.load(open(os.path.join(d, "meta.json")))
+        conf = json.load(open(os.path.join(d, "confirmation.json"))) if os.path.exists(os.path.join(d, "confirmation.json")) else {}
+        det = json.load(open(os.path.join(d, "detection.json"))) if os.path.exists(os.path.join(d, "detection.json")) else {}
+        dets = []
+        for k, v in sorted(det.items()):
+            what = (v.get("first") or "").lstrip("# ").split(": ", 1)[-1][:110].replace("|", "/")
+            dets.append("%s **%s**%s" % (k, "caught" if v["violations"] else "MISSED", (" (" + what + ")") if v["violations"] else ""))
+        needs = (m.get("needs") or "")[:260].replace("\n", " ").replace("|", "/")
+        summ = (m.get("summary") or "")[:260].replace("\n", " ").replace("|", "/")
+        rows.append("| `%s` | %s | %s | %s | %s | %s |" % (name, m.get("property"), summ, needs,
+                    "yes" if conf.get("confirmed") else ("demo only" if conf.get("demo_patched_rc") else "—"), "; ".join(dets) or "—"))
+    head = ("| seeded change | breaks | what the change is | what it needs to manifest | confirmed (demo fails with / passes without; 150 baseline tests pass) | checks run against it |\n"
+            "|---|---|---|---|---|---|\n")
+    return head + "\n".join(rows) + "\n"
+
+
 if __name__ == "__main__":
     a = sys.argv[1:]
-    if a[0] == "verify":
+    if a[0] == "table":
+        print(table())
+    elif a[0] == "verify":
         print(json.dumps(verify(a[1], skip_tests="--skip-tests" in a), indent=1))
     elif a[0] == "run":
         tier = "quick"
